@@ -123,9 +123,12 @@ LISTED_RUNTIME = ('undefined_variable', 'undefined_variable_compound', 'undefine
 LEXICAL = ('illegal_char', 'unterminated_string')
 
 
-def _names():
-    return {'l': [1, 2, 3], 'd': {'a': {'b': 1}, 'k': 2}, 's': 'abc', 'x': 5, 'e': [], 'n': [[1, 2], [3]],
-            'big': list(range(10000)), 'bigd': {str(i): i for i in range(10000)}}
+def _names(with_big=False):
+    n = {'l': [1, 2, 3], 'd': {'a': {'b': 1}, 'k': 2}, 's': 'abc', 'x': 5, 'e': [], 'n': [[1, 2], [3]]}
+    if with_big:
+        n['big'] = list(range(10000))
+        n['bigd'] = {str(i): i for i in range(10000)}
+    return n
 
 
 def execute(case, ctx):
@@ -133,7 +136,6 @@ def execute(case, ctx):
     if case['world'].get('repl'):
         return _repl_session(case, ctx)
     parser = boot.fresh_parser()
-    names = _names()
     kinds_judged = set()
     for step, op in enumerate(case['ops']):
         ctx.step = step
@@ -147,8 +149,8 @@ def execute(case, ctx):
                 list(parser.list_names(src))
             else:
                 kw = {'max_ops_evaluated': op['budget']} if op.get('budget') else {'max_ops_evaluated': 100000}
-                # every call gets its own names mapping: nothing a failed call bound may be visible to a later one
-                parser.eval(src, dict(names), **kw)
+                # every call gets its own fresh names mapping: nothing an earlier call bound or mutated may be visible
+                parser.eval(src, _names(with_big=op['kind'] == 'size_cap'), **kw)
         except BaseException as e:          # classification below decides what it means
             exc = e
         kind = op['kind']
